@@ -457,7 +457,11 @@ func (c *FnCtx) assignTo(st *State, l ast.Expr, v *Val) {
 			n := sortName(base.S)
 			ns := c.fresh("upd_"+n, base.S)
 			st.assume(tEq(tApp("len_"+n, ns), c.seqLen(base)))
-			st.assume(fmt.Sprintf("(forall ((k Int)) (! (= (at_%s %s k) (ite (= k %s) %s (at_%s %s k))) :pattern ((at_%s %s k))))", n, ns, i.T, c.coerce(v, elemSort(base.S)).T, n, base.T, n, ns))
+			fwd := ""
+			if c.con != nil && c.con.Flags["forward-seq"] {
+				fwd = fmt.Sprintf(" :pattern ((at_%s %s k))", n, base.T)
+			}
+			st.assume(fmt.Sprintf("(forall ((k Int)) (! (= (at_%s %s k) (ite (= k %s) %s (at_%s %s k))) :pattern ((at_%s %s k))%s))", n, ns, i.T, c.coerce(v, elemSort(base.S)).T, n, base.T, n, ns, fwd))
 			c.assumeNote("slices are value sequences: element stores do not alias other slices sharing the backing array")
 			c.assignTo(st, x.X, &Val{T: ns, S: base.S, Typ: base.Typ})
 		}
